@@ -245,6 +245,11 @@ def run_records(ctx, focus, n_random, exhaustive_n=0, field=0):
             ctx.count("records_with_a_fast_logger_and_outages_between_grid_instants")
         res = C.run_case(ctx, rec, s, j)
         judge(ctx, focus, res, C.replay_input(rec, s, j), ["events", "random", "dense", "layout"][kind])
+    # rises sitting exactly on a decimal threshold (rounding boundary of threshold x step)
+    for k in range(60 if n_random <= 400 else 600):
+        rec, s, j = gen.boundary_record(rng)
+        res = C.run_case(ctx, rec, s, j)
+        judge(ctx, focus, res, C.replay_input(rec, s, j), "boundary")
     # long records: hundreds of samples, tens of storms and rises (size-dependent behaviour: hash order of the
     # storm pool, numpy reductions, SQL over many rows)
     for k in range(3 if n_random <= 400 else 20):
